@@ -28,8 +28,17 @@ func (it *Interp) opRead(op *Op) {
 	}
 	valid := alive
 	switch op.Mode {
-	case 0, 2, 8, 9:
+	case 0, 2, 8, 9, 10, 11:
 		valid = alive && has
+	}
+	if op.Mode == 11 {
+		pos = op.N % len(MapInsts[mp].Comps)
+		if alive {
+			valid = e.Mask&(1<<uint(MapInsts[mp].Comps[pos])) != 0
+		}
+	}
+	if (op.Mode == 10 || op.Mode == 11) && !alive {
+		panic("bad op: unchecked accessors are only generated for alive entities")
 	}
 	it.count("read-call-" + readNames[op.Mode])
 	if !alive {
@@ -86,6 +95,25 @@ func (it *Interp) opRead(op *Op) {
 			if t != want {
 				fail("state|read|map-target", "%s step %d: Map[%s].GetRelation(#%d)=%v, model %v", b.Name, it.Step, comps.All[c].Name, op.E, t, want)
 			}
+		case 10:
+			t := b.Mapper(c).GetRelationUnchecked(h, 0)
+			want := ecs.Entity{}
+			if comps.All[c].Relation {
+				want = b.handle(e.Tgt[c])
+			}
+			if t != want {
+				fail("state|read|map-target-unchecked", "%s step %d: Map[%s].GetRelationUnchecked(#%d)=%v, model %v", b.Name, it.Step, comps.All[c].Name, op.E, t, want)
+			}
+		case 11:
+			cc := MapInsts[mp].Comps[pos]
+			t := b.Mapper(mp).GetRelationUnchecked(h, pos)
+			want := ecs.Entity{}
+			if comps.All[cc].Relation {
+				want = b.handle(e.Tgt[cc])
+			}
+			if t != want {
+				fail("state|read|mapn-target-unchecked", "%s step %d: %s.GetRelationUnchecked(#%d,%d)=%v, model %v", b.Name, it.Step, MapInsts[mp].Name, op.E, pos, t, want)
+			}
 		case 9:
 			cc := MapInsts[mp].Comps[pos]
 			t := b.Mapper(mp).GetRelation(h, pos)
@@ -100,7 +128,7 @@ func (it *Interp) opRead(op *Op) {
 	})
 }
 
-var readNames = []string{"Unsafe.Get", "Unsafe.Has", "Unsafe.GetRelation", "Unsafe.IDs", "Map.Get", "Map.Has", "MapN.Get", "MapN.HasAll", "Map.GetRelation", "MapN.GetRelation"}
+var readNames = []string{"Unsafe.Get", "Unsafe.Has", "Unsafe.GetRelation", "Unsafe.IDs", "Map.Get", "Map.Has", "MapN.Get", "MapN.HasAll", "Map.GetRelation", "MapN.GetRelation", "Map.GetRelationUnchecked", "MapN.GetRelationUnchecked"}
 
 // staleClass classifies a non-alive handle for the evidence: zero entity, dead with the ID unused, or dead with
 // the ID alive again under a newer generation.
@@ -187,6 +215,9 @@ func (g *Gen) genMisuse(t *rapid.T) *Op {
 			op = &Op{K: "copy"}
 		case "read":
 			op = g.genRead(t)
+			if op.Mode >= 10 {
+				op.Mode -= 2 // the checked variants; unchecked accessors are not defined for dead handles
+			}
 		case "emit":
 			op = &Op{K: "emit", Mode: rapid.SampledFrom([]int{EvCustom0, EvCustom1}).Draw(t, "event")}
 			if s < 0 {
